@@ -8,7 +8,8 @@ import copy
 import itertools
 import json
 
-VALS = [0, 1, 2, 'a', 'b', None, True, [1, 2], {'k': 1}, {'k': {'m': 2}}, {'k': 2, 'n': 3}, {}]
+VALS = [0, 1, 2, 'a', 'b', None, True, [1, 2], {'k': 1}, {'k': 5}, {'k': {'m': 2}}, {'k': {'m': 7}}, {'k': 2, 'n': 3},
+        {'k': 4, 'n': 9}, {}]
 VARS = ['v0', 'v1', 'v2', 'v3']
 
 
@@ -20,10 +21,24 @@ class FakeTaskEx(object):
         self.id = id_ or name
 
 
+UNHASH = {}
+
+
+def learn_paths(published):
+    """remember md5(path) -> path for every leaf path of a published dict: the model keeps version
+    keys as plain paths, the implementation (hash_version_keys, the default) as their md5; the
+    comparison canonicalises real keys back to paths.  A real key that is not the md5 of a leaf
+    path that was ever published stays as it is and shows up as a disagreement."""
+    import hashlib
+    for v, val in (published or {}).items():
+        for lp in leaf_paths(val, v):
+            UNHASH[hashlib.md5(lp.encode('utf-8')).hexdigest()] = lp
+
+
 def canon_ctx(ctx):
     """{'data':..., 'vers':...} from a python context dict (sorted later by json dumps)"""
     d = {k: v for k, v in ctx.items() if k != '__versions'}
-    return {'data': d, 'vers': dict(ctx.get('__versions', {}))}
+    return {'data': d, 'vers': {UNHASH.get(k, k): v for k, v in ctx.get('__versions', {}).items()}}
 
 
 def norm(x):
@@ -54,90 +69,103 @@ def gen_history(rng, n=None):
     return tasks
 
 
-def run_chunk(ctx, n_histories):
+def run_history(ctx, hist, hashed):
     from harness import boot
     boot.boot()
     from oslo_config import cfg
     from mistral.workflow import data_flow
-    from mistral.workflow import context_versioning as cv
     drv = ctx.driver()
+    cfg.CONF.set_override('hash_version_keys', hashed, group='context_versioning')
+    for t in hist:
+        learn_paths(t['published'])
+    hist = [dict(t, hashed=hashed) if i == 0 else t for i, t in enumerate(hist)]   # replays carry the mode
+    inb = {}
+    outb = {}
+    ok = True
+    for t in hist:
+        # ---- inbound context = upstream of the parents' outbound contexts (real code)
+        parents = t['parents']
+        orders = [list(parents)]
+        if 2 <= len(parents) <= 4:
+            orders = [list(p) for p in itertools.permutations(parents)]
+        results = []
+        for order in orders:
+            execs = [FakeTaskEx(p, copy.deepcopy(inb[p]), copy.deepcopy(hist_pub(hist, p))) for p in order]
+            before = [(copy.deepcopy(e.in_context), copy.deepcopy(e.published)) for e in execs]
+            real = data_flow.evaluate_upstream_context(list(execs))
+            # C05 monitor: evaluation never modifies the stored contexts
+            for e, (bi, bp) in zip(execs, before):
+                if e.in_context != bi:
+                    ctx.violation('evaluate_upstream_context modified an inbound context object',
+                                  {'history': hist, 'task': t['name'], 'order': order},
+                                  {'kind': 'stored-context-mutated', 'fn': 'evaluate_upstream_context'})
+                if e.published != bp:
+                    # nested dicts of `published` are shared with the outbound context and merged
+                    # in place; whether that reaches the DATABASE is decided by the engine-level
+                    # monitor (committed `published` of a completed task never changes)
+                    ctx.count('ctx', 'in-memory-published-object-mutated')
+            outs = [canon_ctx(outb[p]) for p in order]
+            mo = drv.call('ctx.upstream', {'outs': outs})
+            io = canon_ctx(real) if real else {'data': {}, 'vers': {}}
+            io['data'].pop('__task_execution', None)
+            ctx.evaluated('ctx', [outs], nontrivial=len(parents) >= 2)
+            ctx.count('ctx', 'upstream:%d' % len(parents))
+            if norm(mo) != norm(io):
+                ctx.disagree('ctx', {'fn': 'upstream', 'outs': outs}, mo, io)
+                ok = False
+            results.append(norm(io))
+        # ---- C05 monitor: order independence when publishers are causally ordered or agree
+        if len(results) > 1 and any(r != results[0] for r in results):
+            conflict = conflicting(hist, t)
+            ctx.count('ctx', 'order-dependent:' + ('conflict' if conflict else 'NO-CONFLICT'))
+            if not conflict:
+                sig = ({'kind': 'versioning-value-shape-change'} if shape_change(hist)
+                       else {'kind': 'order-dependent-merge'})
+                ctx.violation('upstream context depends on the order rows are listed although no '
+                              'two concurrent branches publish the same variable',
+                              {'history': hist, 'task': t['name'], 'results': results[:3]}, sig)
+        # continue the history with the first order
+        first = [FakeTaskEx(p, copy.deepcopy(inb[p]), copy.deepcopy(hist_pub(hist, p))) for p in orders[0]]
+        in_ctx = data_flow.evaluate_upstream_context(first) if first else {}
+        in_ctx = copy.deepcopy(in_ctx)
+        in_ctx.pop('__task_execution', None)
+        inb[t['name']] = in_ctx
+        # ---- outbound
+        tex = FakeTaskEx(t['name'], copy.deepcopy(in_ctx), copy.deepcopy(t['published']))
+        b_in, b_pub = copy.deepcopy(tex.in_context), copy.deepcopy(tex.published)
+        real_out = data_flow.evaluate_task_outbound_context(tex)
+        if tex.in_context != b_in or tex.published != b_pub:
+            ctx.violation('evaluate_task_outbound_context modified the stored context',
+                          {'history': hist, 'task': t['name']},
+                          {'kind': 'stored-context-mutated', 'fn': 'evaluate_task_outbound_context'})
+        mo = drv.call('ctx.outbound', {'in': canon_ctx(in_ctx) if in_ctx else {'data': {}, 'vers': {}},
+                                       'published': t['published']})
+        io = canon_ctx(real_out)
+        ctx.evaluated('ctx', [canon_ctx(in_ctx) if in_ctx else {}, t['published']], nontrivial=bool(t['published']))
+        ctx.count('ctx', 'outbound')
+        if norm(mo) != norm(io):
+            ctx.disagree('ctx', {'fn': 'outbound', 'in': in_ctx, 'published': t['published']}, mo, io)
+        outb[t['name']] = copy.deepcopy(real_out)
+        # ---- C05 monitor: latest causal publisher wins
+        check_latest(ctx, hist, t, in_ctx)
+    cfg.CONF.clear_override('hash_version_keys', group='context_versioning')
+    return inb
+
+
+def run_chunk(ctx, n_histories):
     rng = ctx.rng
     for hi in range(n_histories):
-        hashed = rng.random() < 0.2
-        cfg.CONF.set_override('hash_version_keys', False, group='context_versioning')
+        hashed = rng.random() < 0.5
+        ctx.count('ctx', 'hashed-version-keys' if hashed else 'plain-version-keys')
         hist = gen_history(rng)
-        inb = {}
-        outb = {}
-        ok = True
-        for t in hist:
-            # ---- inbound context = upstream of the parents' outbound contexts (real code)
-            parents = t['parents']
-            orders = [list(parents)]
-            if 2 <= len(parents) <= 4:
-                orders = [list(p) for p in itertools.permutations(parents)]
-            results = []
-            for order in orders:
-                execs = [FakeTaskEx(p, copy.deepcopy(inb[p]), copy.deepcopy(hist_pub(hist, p))) for p in order]
-                before = [(copy.deepcopy(e.in_context), copy.deepcopy(e.published)) for e in execs]
-                real = data_flow.evaluate_upstream_context(list(execs))
-                # C05 monitor: evaluation never modifies the stored contexts
-                for e, (bi, bp) in zip(execs, before):
-                    if e.in_context != bi:
-                        ctx.violation('evaluate_upstream_context modified an inbound context object',
-                                      {'history': hist, 'task': t['name'], 'order': order},
-                                      {'kind': 'stored-context-mutated', 'fn': 'evaluate_upstream_context'})
-                    if e.published != bp:
-                        # nested dicts of `published` are shared with the outbound context and merged
-                        # in place; whether that reaches the DATABASE is decided by the engine-level
-                        # monitor (committed `published` of a completed task never changes)
-                        ctx.count('ctx', 'in-memory-published-object-mutated')
-                outs = [canon_ctx(outb[p]) for p in order]
-                mo = drv.call('ctx.upstream', {'outs': outs})
-                io = canon_ctx(real) if real else {'data': {}, 'vers': {}}
-                io['data'].pop('__task_execution', None)
-                ctx.evaluated('ctx', [outs], nontrivial=len(parents) >= 2)
-                ctx.count('ctx', 'upstream:%d' % len(parents))
-                if norm(mo) != norm(io):
-                    ctx.disagree('ctx', {'fn': 'upstream', 'outs': outs}, mo, io)
-                    ok = False
-                results.append(norm(io))
-            # ---- C05 monitor: order independence when publishers are causally ordered or agree
-            if len(results) > 1 and any(r != results[0] for r in results):
-                conflict = conflicting(hist, t)
-                ctx.count('ctx', 'order-dependent:' + ('conflict' if conflict else 'NO-CONFLICT'))
-                if not conflict:
-                    sig = ({'kind': 'versioning-value-shape-change'} if shape_change(hist)
-                           else {'kind': 'order-dependent-merge'})
-                    ctx.violation('upstream context depends on the order rows are listed although no '
-                                  'two concurrent branches publish the same variable',
-                                  {'history': hist, 'task': t['name'], 'results': results[:3]}, sig)
-            # continue the history with the first order
-            first = [FakeTaskEx(p, copy.deepcopy(inb[p]), copy.deepcopy(hist_pub(hist, p))) for p in orders[0]]
-            in_ctx = data_flow.evaluate_upstream_context(first) if first else {}
-            in_ctx = copy.deepcopy(in_ctx)
-            in_ctx.pop('__task_execution', None)
-            inb[t['name']] = in_ctx
-            # ---- outbound
-            tex = FakeTaskEx(t['name'], copy.deepcopy(in_ctx), copy.deepcopy(t['published']))
-            b_in, b_pub = copy.deepcopy(tex.in_context), copy.deepcopy(tex.published)
-            real_out = data_flow.evaluate_task_outbound_context(tex)
-            if tex.in_context != b_in or tex.published != b_pub:
-                ctx.violation('evaluate_task_outbound_context modified the stored context',
-                              {'history': hist, 'task': t['name']},
-                              {'kind': 'stored-context-mutated', 'fn': 'evaluate_task_outbound_context'})
-            mo = drv.call('ctx.outbound', {'in': canon_ctx(in_ctx) if in_ctx else {'data': {}, 'vers': {}},
-                                           'published': t['published']})
-            io = canon_ctx(real_out)
-            ctx.evaluated('ctx', [canon_ctx(in_ctx) if in_ctx else {}, t['published']], nontrivial=bool(t['published']))
-            ctx.count('ctx', 'outbound')
-            if norm(mo) != norm(io):
-                ctx.disagree('ctx', {'fn': 'outbound', 'in': in_ctx, 'published': t['published']}, mo, io)
-            outb[t['name']] = copy.deepcopy(real_out)
-            # ---- C05 monitor: latest causal publisher wins
-            check_latest(ctx, hist, t, in_ctx)
+        inb = run_history(ctx, hist, hashed)
         if rng.random() < 0.01:
             ctx.sample({'stream': 'ctx', 'history': hist, 'final_in': inb[hist[-1]['name']]})
-        cfg.CONF.clear_override('hash_version_keys', group='context_versioning')
+
+
+def replay(ctx, rep):
+    hist = rep['history']
+    run_history(ctx, [{k: v for k, v in t.items() if k != 'hashed'} for t in hist], hist[0].get('hashed', True))
 
 
 def hist_pub(hist, name):
